@@ -62,9 +62,9 @@ PROPS["C10"] = dict(
     assumptions=A_COMMON + A_ITER + ["A-path, A-type as for C01", "schedule-level invariants (formations, listings, depot usage, cycles) not under contract"],
 )
 PROPS["C02"] = dict(
-    slices=["limits", "admission", "mcf_bounds", "train_formation_update", "add_path"],
+    slices=["limits", "admission", "mcf_bounds", "train_formation_update", "add_path", "depot_choice"],
     witness_family="net",
-    level_text="Verus proves the per-call contracts: maximal_formation_count_for returns the smaller of the limits that are present (None iff neither), Depot::capacity_for is bounded by total and per-type capacity and is 0 for unlisted types, number_of_vehicles_required_to_serve is the exact ceiling; the schedule-level admission checks are exact: vehicle_replacement_in_train_formation lets a formation grow only while it is strictly below the track count (maintenance) resp. the combined formation limit (service) and otherwise performs exactly replace / remove / add_at_tail / no-op, can_depot_spawn_vehicle_custom_usage is true iff the type is listed with room left for the type and in total; the composition over schedule histories (train_formations single writer, spawn paths) is a structural argument, not machine-checked",
+    level_text="Verus proves the per-call contracts: maximal_formation_count_for returns the smaller of the limits that are present (None iff neither), Depot::capacity_for is bounded by total and per-type capacity and is 0 for unlisted types, number_of_vehicles_required_to_serve is the exact ceiling; the schedule-level admission checks are exact: vehicle_replacement_in_train_formation lets a formation grow only while it is strictly below the track count (maintenance) resp. the combined formation limit (service) and otherwise performs exactly replace / remove / add_at_tail / no-op, can_depot_spawn_vehicle_custom_usage is true iff the type is listed with room left for the type and in total; find_best_start_depot_for_spawning returns the nearest start depot that has room for the type (per type and in total, w.r.t. the usage table it is given) and adding the vehicle there keeps both limits (lemma over the contracts); find_best_end_depot_for_despawning returns the nearest end depot and ignores capacities, as documented; the composition over schedule histories (train_formations single writer, spawn paths) is a structural argument, not machine-checked",
     level_note="trusted: vstd, key-model axioms, u32::div_ceil and Option::or specs; stubs: VehicleTypes::get, VehicleTypes::iter; A-im (im::HashMap / HashSet shims), std HashMap Index spec; update_train_formation (the single writer of the formation table) is under contract in slice train_formation_update: moved nodes get exactly the admitted replacement, a grown formation stays within the node's limit; of the min-cost-flow stage only the bound expressions on trip and depot edges are under contract (R8 fragments: upper bound = combined limit resp. capacity_for, lower bound = min(required, limit)); that the circulation returned by rs_graph's network_simplex respects them is A-lib",
     scope="limit combination, depot capacity, vehicles required, formation/track admission, depot spawn admission, unserved passengers per node",
     assumptions=A_COMMON + ["A-stub: VehicleTypes::get returns the stored type", "A-lib: rs_graph::mcf::network_simplex returns a circulation within the edge bounds; the graph plumbing of solve_for_vehicle_type is pinned by a skeleton hash, not verified", "the stand-in 100 for 'no formation limit' in the flow network is documented behaviour (trips needing more than 100 unlimited vehicles are not fully served by the start solution)"],
@@ -102,9 +102,9 @@ PROPS["C13"] = dict(
 )
 
 PROPS["C15"] = dict(
-    slices=["transition", "tsp_ranges", "transition_objective"],
+    slices=["transition", "tsp_ranges", "transition_objective", "new_fast"],
     witness_family="trans",
-    level_text="bookkeeping half: Verus proves that every rotation-cycle operation of solution/src/transition (update_vehicle, add_vehicle_to_own_cycle, remove_vehicle, add_vehicle_at_the_end, move_vehicle, replace_cycle, three_opt) preserves the representation invariant written from the property (cycles duplicate-free and pairwise disjoint, lookup and empty-cycle list match the cycles, every cycle counter and both totals equal their recomputed values); 'optimisation never worsens': the two searches are built with the objectives (maintenance violation, then total maintenance counter) for the cycles of a type and (cycle counter) for the 3-opt inside one cycle, each level 1 * the transition's / cycle's own cached total (slice transition_objective; the lexicographic comparison is verified in slice objective_eval, run under C08); that rapid_solve's search never returns something worse in that order is assumed; the 3-opt index ranges of TransitionCycleNeighborhood::neighbors_of (R8 fragments) are total for every cycle length and only generate triples satisfying three_opt's precondition; Transition::one_cluster_per_maintenance is not under contract",
+    level_text="bookkeeping half: Verus proves that every rotation-cycle operation of solution/src/transition (update_vehicle, add_vehicle_to_own_cycle, remove_vehicle, add_vehicle_at_the_end, move_vehicle, replace_cycle, three_opt) preserves the representation invariant written from the property (cycles duplicate-free and pairwise disjoint, lookup and empty-cycle list match the cycles, every cycle counter and both totals equal their recomputed values); 'optimisation never worsens': the two searches are built with the objectives (maintenance violation, then total maintenance counter) for the cycles of a type and (cycle counter) for the 3-opt inside one cycle, each level 1 * the transition's / cycle's own cached total (slice transition_objective; the lexicographic comparison is verified in slice objective_eval, run under C08); that rapid_solve's search never returns something worse in that order is assumed; the 3-opt index ranges of TransitionCycleNeighborhood::neighbors_of (R8 fragments) are total for every cycle length and only generate triples satisfying three_opt's precondition; Transition::new_fast / one_cluster_per_maintenance (the initial clustering): push_vehicle_to_end_of_cluster verbatim and seven verbatim-lifted pieces (R8: the splitting loop, the sort keys, the cluster search, the join step, the closing step with the totals, the lookup construction) are proved, the remaining plumbing (two sorts, the loop heads, the FnMut map) is pinned by a skeleton hash, and a proved lemma composes the fragment contracts into: the result is well formed, every given vehicle is in exactly one cycle, no other vehicle is, counters and totals exact, no empty cycle",
     level_note="trusted: vstd, A-im (im::HashMap shim with Map view), SeqIter shim incl. filter, Option::copied / Vec::extend / Vec::retain specs, stubs Tour::{maintenance_counter,start_depot,end_depot}, TransitionCycle::iter; caller-side: the vehicle passed to update_vehicle/remove_vehicle is not a key of updated_tours",
     scope="solution/src/transition.rs (get_successor_of), transition/transition_cycle.rs, transition/modifications.rs",
     assumptions=A_COMMON + [
@@ -162,9 +162,9 @@ PROPS["C07"] = dict(
 
 ALL_SLICES = ["time", "network", "net_enum", "limits", "json_out", "tour_pos", "tour_mod", "path", "tour_ctor", "formation", "transition",
               "tsp_ranges", "admission", "reassign", "pipeline", "mcf_bounds", "sched_guard", "depot_usage", "network_new", "json_writer",
-              "objective", "train_formation_update", "update_tours", "remove_segment", "spawn_vehicle", "add_path", "override_reassign", "sched_ctor", "depot_ops", "fit_reassign", "dummy_ops", "objective_eval", "swaps", "swaps_sem", "transition_objective"]
+              "objective", "train_formation_update", "update_tours", "remove_segment", "spawn_vehicle", "add_path", "override_reassign", "sched_ctor", "depot_ops", "fit_reassign", "dummy_ops", "objective_eval", "swaps", "swaps_sem", "transition_objective", "depot_choice", "new_fast"]
 PROPS["C06"] = dict(
-    slices=["time", "network_new", "tsp_ranges", "mcf_bounds", "limits", "objective", "pipeline", "json_out", "transition", "sched_ctor"],
+    slices=["time", "network_new", "tsp_ranges", "mcf_bounds", "limits", "objective", "pipeline", "json_out", "transition", "sched_ctor", "depot_choice"],
     thorough_slices=ALL_SLICES,
     witness_family=None,
     level_text="per-function totality only: for every function under contract (quick tier: the places where the unchanged code used to panic -- overflow depot capacity D5/D13, flow-network edge bounds D14, 3-opt index ranges D7 -- plus the rotation-cycle operations, time arithmetic, limits, objective and pipeline wiring; thorough tier: every slice) Verus proves that, under the function's stated preconditions (parts of instance validity and of schedule validity), no unwrap / expect / index / slice / division / explicit panic! is reachable, no integer operation overflows or underflows (so the optimised build and the build with arithmetic checks agree) and every loop terminates (decreases clauses; for-loops over finite sequences). That the preconditions hold along the whole pipeline, termination of the local search and of the external network simplex, and panic freedom of the functions not under contract are NOT decided",
